@@ -945,8 +945,17 @@ def monitor_c08(cl, ri, rq, ob):
     if not stamped and st not in (400, 502, 504):
         return fail("fabricated", "piko itself answered %d (only 400/502/504 are its own)" % st)
     if cl["kind"] == "timeout" and ep in ("s", "w"):
-        if ep == "s" and not is_ws(rq) and st != 504:
+        # the slow upstream is reached from the entry node when it is connected there, or - for a request that does not carry the
+        # forward marker already - when the entry node's view lists an active node advertising the endpoint; a marked request
+        # entering elsewhere is answered 502 at once (C06), and so is one the entry node cannot route (false alarm l, DESIGN 9)
+        entry = cl["nodes"][rq["entry"]]
+        routed = bool(local_ups(entry, ep)) or (not client_forwarded(rq) and any(
+            v.get("status", "active") == "active" and any(U(e_) == ep and n_ > 0 for e_, n_ in v["eps"]) for v in entry["view"]))
+        if ep == "s" and not is_ws(rq) and routed and st != 504:
             return fail("status-504", "upstream slower than the %d ms timeout but the answer was %d, not 504" % (cl["timeout_ms"], st))
+        if ep == "s" and not is_ws(rq) and not routed and st != 502:
+            return fail("status-502", "the entry node has no route to %r (no local upstream%s) but the answer was %d, not 502"
+                        % (ep, ", request already marked as forwarded" if client_forwarded(rq) else ", empty view", st))
         if ep == "w" and is_ws(rq) and (st == 504 or not stamped):
             return fail("ws-timeout", "websocket upgrade (Upgrade: %s) had the proxy timeout applied: %d" % (hdr_first(rq["headers"], "upgrade"), st))
     elif st == 504 and not stamped:
